@@ -646,25 +646,11 @@ class _zbl(_Potential_Function_Base):
     :param z1: Atomic number of species i
     :param z2: Atomic number of species j
     :return: Derivative of function"""
-    v = -14.39942*z1*z2*(self.Ck1*math.exp(2.13503407300877*r*(z1**0.23 + z2**0.23)\
-        * (self.Bk2 + self.Bk3 + self.Bk4))\
-        + self.Ck2*math.exp(2.13503407300877*r*(z1**0.23 + z2**0.23)\
-        *(self.Bk1 + self.Bk3 + self.Bk4))\
-        + self.Ck3*math.exp(2.13503407300877*r*(z1**0.23 + z2**0.23)\
-        *(self.Bk1 + self.Bk2 + self.Bk4))\
-        + self.Ck4*math.exp(2.13503407300877*r*(z1**0.23 + z2**0.23)\
-        *(self.Bk1 + self.Bk2 + self.Bk3))\
-        + 2.13503407300877*r*(z1**0.23 + z2**0.23)\
-        *(self.Bk1*self.Ck1*math.exp(2.13503407300877\
-        *r*(z1**0.23 + z2**0.23)*(self.Bk2 + self.Bk3 + self.Bk4))\
-        + self.Bk2*self.Ck2*math.exp(2.13503407300877*r*(z1**0.23 + z2**0.23)\
-        *(self.Bk1 + self.Bk3 + self.Bk4))\
-        + self.Bk3*self.Ck3*math.exp(2.13503407300877*r*(z1**0.23 + z2**0.23)\
-        *(self.Bk1 + self.Bk2 + self.Bk4)) + self.Bk4*self.Ck4\
-        *math.exp(2.13503407300877*r*(z1**0.23 + z2**0.23)\
-        *(self.Bk1 + self.Bk2 + self.Bk3))))\
-        *math.exp(-2.13503407300877*r*(z1**0.23 + z2**0.23)\
-        *(self.Bk1 + self.Bk2 + self.Bk3 + self.Bk4))/r**2
+    s = 2.13503407300877*(z1**0.23 + z2**0.23)
+    v = -14.39942*z1*z2*(self.Ck1*(1.0 + self.Bk1*s*r)*math.exp(-self.Bk1*s*r)\
+        + self.Ck2*(1.0 + self.Bk2*s*r)*math.exp(-self.Bk2*s*r)\
+        + self.Ck3*(1.0 + self.Bk3*s*r)*math.exp(-self.Bk3*s*r)\
+        + self.Ck4*(1.0 + self.Bk4*s*r)*math.exp(-self.Bk4*s*r))/r**2
     return v
 
   def deriv2(self, r, z1, z2):
